@@ -264,6 +264,7 @@ def check_sweep(ctx, exe):
     repro = {}
     fixed_seen = {f["id"]: 0 for f in fixed}
     nviol = 0
+    hit_funcs = set()       # innermost library function of every allocation this run made fail
     for (s, k, c), (rc, out, err) in zip(jobs, res):
         sm = summarize(err)
         m = re.search(r"rc=(.*) site=", out)
@@ -275,6 +276,8 @@ def check_sweep(ctx, exe):
         for f in fixed:
             if any(x in sm["site"].split("<") for x in f["signature"].get("site_any", [])):
                 fixed_seen[f["id"]] += 1
+        if sm["site"] and sm["site"] != "-":
+            hit_funcs.update(sm["site"].split("<")[:1])
         if not bad:
             continue
         kf = match_known(known, sm)
@@ -288,6 +291,23 @@ def check_sweep(ctx, exe):
                 "sanitizer": sm["kind"], "failing_allocation_site": sm["site"], "report_functions": sm["funcs"][:16],
                 "stream_return_codes": rcs, "stderr": err[-4000:],
                 "replay": "fault_driver sweep %s %d (FD_CHUNK=%d)" % (s, k, c)})
+    # which of the library's allocation call sites (by containing function, from the relocations of the objects built from /repo) the sweep made fail
+    import subprocess as _sp
+    static = set()
+    for o in vf.build_objs(ctx, "san"):          # same compiler and inlining decisions as the sweep's driver
+        if os.path.basename(o).startswith("lzma_"):
+            continue
+        cur = None
+        for l in _sp.run(["objdump", "-dr", o], stdout=_sp.PIPE, universal_newlines=True).stdout.splitlines():
+            m = re.match(r"^[0-9a-f]+ <([^>]+)>:", l)
+            if m:
+                cur = m.group(1)
+            elif cur and re.search(r"R_X86_64_PLT32\s+(malloc|calloc|realloc|strdup)\b", l):
+                static.add(cur)
+    # a static function that one build inlines into its caller is reported under the callee's name by the backtrace
+    alias = {"htp_tx_state_request_headers": "htp_tx_process_request_headers"}
+    hit = set(f for f in static if f in hit_funcs or alias.get(f) in hit_funcs)
+    ctx.cov["allocation_functions"] = {"in_library": len(static), "made_to_fail_by_the_sweep": len(hit), "never_failed": sorted(static - hit)}
     ctx.cov["suites"]["fault-sweep"]["failing_runs_new"] = nviol
     ctx.cov["suites"]["fault-sweep"]["known_reproduced"] = {i: len(v) for i, v in repro.items()}
     ctx.cov["suites"]["fault-sweep"]["fixed_regression_witnesses_run"] = fixed_seen
